@@ -806,6 +806,32 @@ def self_aliases_inlined(node):
     return new
 
 
+def descending_ranges_ascending(fn):
+    """a copy of `fn` in which every `for v in range(A, B, -1): BODY` is written `for v__k in range(A - B): v = A - v__k; BODY` - the same indices in the same order, through
+    an ascending counter (the engines for index sets know ranges with step 1 only)"""
+    from . import norm as N_
+    new = N_.clone(fn)
+    for loop in [l for l in ast.walk(new) if isinstance(l, ast.For) and isinstance(l.target, ast.Name)]:
+        it = loop.iter
+        if not (isinstance(it, ast.Call) and isinstance(it.func, ast.Name) and it.func.id in ('range', 'prange') and len(it.args) == 3):
+            continue
+        st = it.args[2]
+        neg1 = (isinstance(st, ast.UnaryOp) and isinstance(st.op, ast.USub) and isinstance(st.operand, ast.Constant) and st.operand.value == 1) or \
+            (isinstance(st, ast.Constant) and st.value == -1)
+        if not neg1:
+            continue
+        v = loop.target.id
+        k = v + '__k'
+        a, b = it.args[0], it.args[1]
+        loop.target = ast.Name(id=k, ctx=ast.Store())
+        loop.iter = ast.copy_location(ast.Call(func=ast.Name(id='range', ctx=ast.Load()), args=[ast.BinOp(left=N_.clone(a), op=ast.Sub(), right=N_.clone(b))], keywords=[]), it)
+        first = ast.copy_location(ast.Assign(targets=[ast.Name(id=v, ctx=ast.Store())], value=ast.BinOp(left=N_.clone(a), op=ast.Sub(), right=ast.Name(id=k, ctx=ast.Load()))), loop)
+        loop.body = [first] + loop.body
+        ast.fix_missing_locations(loop)
+    set_parents(new)
+    return new
+
+
 def self_aliases_inlined_deep(node, back_to_names=()):
     """like self_aliases_inlined, but the single assignment `v = self.<attr>` may sit in any block of the function as long as every read of `v` comes in (or below) a later
     statement of that same block.  With `back_to_names` the attributes listed there are afterwards written as plain names (`self.inlet_pa` -> `inlet_pa`) wherever the function
